@@ -681,6 +681,18 @@ impl FuChecker {
                 v.push(pos(B, 0, 99_000, DAY));
                 v.push(FuOp::Advance { secs: 10 * DAY });
             }
+            "F22" => {
+                // a sixty-epoch farm; B joins two epochs after A; forty quiet epochs; A claims for the first time; one more epoch
+                // passes (A's next claim starts long after the last change of the total weight)
+                v.push(pos(A, 0, 5000, DAY));
+                v.push(farm_op(fee, C, 0, Some(1), Some(61), ("uusdc", 60_000), Some("lg")));
+                v.push(FuOp::Advance { secs: DAY });
+                v.push(FuOp::Advance { secs: DAY });
+                v.push(pos(B, 0, 5000, DAY));
+                v.push(FuOp::Advance { secs: 40 * DAY });
+                v.push(FuOp::Claim { u: A, until: None });
+                v.push(FuOp::Advance { secs: DAY });
+            }
             "F20" => {
                 // A already holds ten open positions (all on lp1); B stakes lp0; a farm runs on lp0
                 for _ in 0..10 {
@@ -974,6 +986,10 @@ pub fn enabled(c: &FuChecker, w: &World, pre: &FuObs, g: &FuGhost) -> Vec<FuOp> 
                     let mut stale = funds.clone();
                     stale.push((fee.0.clone(), 1000));
                     ops.push(mk(stale));
+                }
+                if fee.1 >= 1000 && fee.0 == reward.0 {
+                    // fee and reward share a denom and the creator attaches the fee only, declaring a reward of that same size
+                    ops.push(FuOp::CreateFarm { u, lp, start, end, reward: (reward.0.clone(), fee.1), id: Some("g".into()), funds: vec![(fee.0.clone(), fee.1)] });
                 }
                 let mut less = funds.clone();
                 for f in less.iter_mut() {
